@@ -100,7 +100,7 @@ def run(pid: str, tier: str, with_search: bool = False) -> int:
         V.case(t["meta"], len(t["ev"]) > 1)
         nlog += t["c"].get("logsp", 0)
         for (l, clause) in vd:
-            if not clause.startswith(pid + ":"):
+            if not traces.belongs(clause, pid):
                 continue
             s = "count" if t["c"].get("sched") == "count" else t["meta"]["sched"]
             V.violation(f"{pid}|trace|{s}|{clause}|{regime_of(t, l)}",
@@ -131,7 +131,7 @@ def replay(payload) -> int:
         vd, _ = traces.validate("SchedTrace", "sched_replay", [t])
         print(t["meta"])
         print(vd[0])
-        return 1 if any(c.startswith(payload["property"] + ":") for _, c in vd[0]) else 0
+        return 1 if any(traces.belongs(c, payload["property"]) for _, c in vd[0]) else 0
     if kind == "sched_replay":
         print("re-run the check to regenerate the model's plans; configuration:", payload["cfg"])
         return 1
